@@ -13,6 +13,7 @@ S_OK, S_BUSY, S_HOLD, S_ERR = 0, 1, 2, -1
 S_MUTEX_UNLOCK, S_MUTEX_LOCK, S_FULL, S_NOT_HOLD = -2, -3, -5, -6
 # flags
 WF_SAMPLE, WF_LINERESET, WF_PROBE, WF_MONVARS, WF_MONBUF, WF_DUMPLF, WF_BRACKET, WF_C01MON = 1, 2, 4, 8, 16, 32, 64, 128
+WF_SAMPLE_LOCKED = 256
 # action kinds
 WA_TRIG, WA_HOLDEXIT, WA_ISFULL, WA_ISBUFFERED, WA_GETPROCESSED, WA_ISBUSY, WA_ISHOLD, WA_SETDIS, WA_SETGDIS, WA_POKE, WA_DUMP = range(1, 12)
 # action timing
